@@ -57,6 +57,37 @@ class NDArray(object):
             _err("tolist arguments")
         return ListV(list(self.items), "list")
 
+    def _truths(self, I, what):
+        out = []
+        for it in self.items:
+            t = I.truth(it)
+            if not isinstance(t, bool):
+                _err("%s of an undecided truth value %r" % (what, it))
+            out.append(t)
+        return out
+
+    def m_all(self, I, args, kwargs):
+        if args or kwargs:
+            _err("all arguments")
+        return Const(all(self._truths(I, "all")))
+
+    def m_any(self, I, args, kwargs):
+        if args or kwargs:
+            _err("any arguments")
+        return Const(any(self._truths(I, "any")))
+
+    def m_ravel(self, I, args, kwargs):
+        if args or kwargs:
+            _err("ravel arguments")
+        return PyObjV(NDArray(self.items))          # one-dimensional already
+
+    m_flatten = m_ravel
+
+    def m_astype(self, I, args, kwargs):
+        if kwargs or len(args) != 1 or not (isinstance(args[0], ExtV) and args[0].name.split(".")[-1] in ("float", "float64", "double")):
+            _err("astype other than float")
+        return PyObjV(NDArray(self.items))
+
     def m_copy(self, I, args, kwargs):
         if args or kwargs:
             _err("copy arguments")
